@@ -3,8 +3,8 @@ package world
 import (
 	"encoding/hex"
 	"fmt"
-	"sort"
 	"os"
+	"sort"
 
 	"github.com/tikv/client-go/v2/testutils"
 	"github.com/tikv/client-go/v2/tikv"
